@@ -24,7 +24,8 @@ import (
 
 func init() { props["C15"] = runC15 }
 
-var c15Modes = []string{"healthy", "refused", "timeout", "http500", "json_server_error", "bad_data_400", "execution_422", "http404", "truncated"}
+var c15Modes = []string{"healthy", "refused", "timeout", "http500", "json_server_error", "bad_data_400", "execution_422", "http404", "truncated",
+	"json_internal_500", "json_unavailable_503", "stalled_body"}
 var c15Endpoints = []string{"Query", "RangeQuery", "Config", "Flags", "Metadata"}
 
 type c15Case struct {
@@ -41,9 +42,9 @@ func c15Outcome(ep, mode string) string {
 	switch mode {
 	case "healthy":
 		return "ok"
-	case "refused", "timeout":
+	case "refused", "timeout", "stalled_body": // a body that never finishes is a timeout like any other
 		return "transport"
-	case "http500", "json_server_error":
+	case "http500", "json_server_error", "json_internal_500", "json_unavailable_503": // what Prometheus itself sends with 500 / 503
 		return "api:v1.ErrServer"
 	case "bad_data_400":
 		return "api:v1.ErrBadData"
@@ -117,6 +118,21 @@ func c15Start(mode string, idx int) *c15Server {
 			fmt.Fprint(w, "boom")
 		case "json_server_error":
 			jsonErr(503, "server_error")
+		case "json_internal_500":
+			jsonErr(500, "internal")
+		case "json_unavailable_503":
+			jsonErr(503, "unavailable")
+		case "stalled_body":
+			w.Header().Set("Content-Type", "application/json")
+			w.WriteHeader(200)
+			fmt.Fprint(w, `{"status":"success","data":{"resu`)
+			if f, ok := w.(http.Flusher); ok {
+				f.Flush()
+			}
+			select {
+			case <-time.After(3 * time.Second):
+			case <-r.Context().Done():
+			}
 		case "bad_data_400":
 			jsonErr(400, "bad_data")
 		case "execution_422":
@@ -374,6 +390,7 @@ func runC15(r *hx.Run, replay string) {
 		return
 	}
 	rr := r.Rng
+	c15FailoverURIs(r)
 	var cases []c15Case
 	// every single-upstream row (the fault table), every endpoint
 	for _, ep := range c15Endpoints {
@@ -399,7 +416,7 @@ func runC15(r *hx.Run, replay string) {
 			for j := 0; j < n; j++ {
 				// bias towards unavailable prefixes so that later upstreams matter
 				if j < n-1 && rr.Intn(2) == 0 {
-					cs.Modes = append(cs.Modes, hx.Pick(rr, []string{"refused", "http500", "json_server_error", "timeout", "refused", "http500"}))
+					cs.Modes = append(cs.Modes, hx.Pick(rr, []string{"refused", "http500", "json_server_error", "timeout", "refused", "http500", "json_internal_500", "json_unavailable_503", "stalled_body"}))
 				} else {
 					cs.Modes = append(cs.Modes, hx.Pick(rr, c15Modes))
 				}
@@ -431,4 +448,29 @@ func runC15(r *hx.Run, replay string) {
 		}(cs)
 	}
 	wg.Wait()
+}
+
+// c15FailoverURIs: every upstream address is checked when the configuration is loaded: an entry of the failover list that
+// is not a URL is refused like a bad `uri` is, never kept until the first outage (where it used to be a nil dereference)
+func c15FailoverURIs(r *hx.Run) {
+	for _, c := range []struct {
+		failover string
+		loads    bool
+	}{
+		{`"http://127.0.0.1:9091"`, true},
+		{`"http://127.0.0.1:9091", "https://b.example.com/prom"`, true},
+		{`"127.0.0.1:9090"`, false},
+		{`"http://127.0.0.1:abc"`, false},
+		{`"http://ok.example.com", "http://[::1"`, false},
+	} {
+		text := fmt.Sprintf("prometheus \"prom\" {\n  uri = \"http://127.0.0.1:9090\"\n  failover = [%s]\n}\n", c.failover)
+		cfg, err := pipe.LoadConfig(r.OutDir, text)
+		r.Case("failover-uri"+c.failover, true)
+		r.Count(fmt.Sprintf("failover-uri-probe:%v", c.loads))
+		if (err == nil) != c.loads {
+			r.Violate(hx.Violation{Class: "failover-uri-validation", Input: map[string]any{"config": text}, Observed: map[string]any{"loads": err == nil, "error": fmt.Sprint(err)},
+				Expected: map[string]any{"loads": c.loads}})
+		}
+		_ = cfg
+	}
 }
